@@ -74,7 +74,7 @@ def g_eof(r, name):
             free = free if free > 0 else free  # a new block may or may not have been added: the spec decides
         ref += 1
         L.append(r.choice(["dds", "put 101 %d 10" % ref, "get 100 %d" % (ref - 1), "reserve 102 %d 0" % ref,
-                           "reserve 102 %d 1" % ref]))
+                           "reserve 102 %d 1" % ref, "appendat 106 %d 0 %d" % (ref, r.choice([1, 2, 10, 1000]))]))
         ref += 1
     L += ["put 103 1 12", "get 103 1", "dds", "reopen", "dds", "get 103 1", "put 104 1 3", "get 104 1", "reserve 105 1 1",
           "newref", "dds"]
